@@ -288,6 +288,68 @@ let cmd_cont (toks : string list) : unit =
     print_result (Base.Ok r)
   | _ -> failwith "bad CONT"
 
+(* ---------- CLI model: the library is an oracle served by the peer ---------- *)
+let rec read_match_lines (n : int) : Matches.cmatch list =
+  if n = 0 then [] else begin
+    let l = input_line stdin in
+    match split_sp l with
+    | ["I"; e; chaos; bom; coh; payload; txt; nsub] ->
+      let subs = read_match_lines (int_of_string nsub) in
+      let m = Matches.CM (bytes_of_ocaml (string_of_hex payload), coq_string (string_of_hex e), f_of_bits (int_of_string chaos),
+                          parse_coh coh, bom = "1", subs, (if txt = "NONE" then None else Some (text_of_utf8 (string_of_hex txt)))) in
+      m :: read_match_lines (n - 1)
+    | _ -> failwith ("bad match line " ^ l)
+  end
+
+let lib_oracle (content : BinNums.coq_N list) (thr : Flt.coq_F) : Matches.cmatch list Base.res =
+  let a = ask ("Q LIB " ^ hex_of_string (ocaml_of_bytes content) ^ " " ^ string_of_int (bits_of_f thr)) in
+  match split_sp a with
+  | ["OK"; n] -> Base.Ok (read_match_lines (int_of_string n))
+  | ["ERR"; h] -> Base.Err (coq_string (string_of_hex h))
+  | _ -> failwith ("bad LIB answer " ^ a)
+
+let opt_hex f o = match o with None -> "NONE" | Some x -> f x
+let strs l = if l = [] then "-" else SS.concat "," (SL.map (fun s -> hex_of_string (ocaml_string s)) l)
+
+let print_record (r : Cli.record) : unit =
+  Printf.printf "REC %s %s %s %s %s %s %d %s %s %s\n"
+    (hex_of_string (ocaml_string r.Cli.r_path))
+    (opt_hex (fun e -> hex_of_string (ocaml_string e)) r.Cli.r_encoding)
+    (strs r.Cli.r_aliases) (strs r.Cli.r_alternatives) (ocaml_string r.Cli.r_language) (strs r.Cli.r_alphabets)
+    (if r.Cli.r_bom then 1 else 0)
+    (opt_hex (fun x -> string_of_int (bits_of_f x)) r.Cli.r_chaos_percent)
+    (opt_hex (fun x -> string_of_int (bits_of_f x)) r.Cli.r_coherence_percent)
+    (opt_hex (fun u -> hex_of_string (ocaml_string u)) r.Cli.r_unicode_path)
+
+let cmd_cli (toks : string list) : unit =
+  match toks with
+  | [nz; rp; fc; mi; al; thr; nfiles; ninputs] ->
+    let b x = x = "1" in
+    let fl = { Cli.f_normalize = b nz; Cli.f_replace = b rp; Cli.f_force = b fc; Cli.f_minimal = b mi; Cli.f_alternatives = b al;
+               Cli.f_threshold = f_of_bits (int_of_string thr) } in
+    let fs0 = SL.init (int_of_string nfiles) (fun _ ->
+        match split_sp (input_line stdin) with
+        | ["P"; p; "R"; c] -> (coq_string (string_of_hex p), Cli.Regular (bytes_of_ocaml (string_of_hex c)))
+        | ["P"; p; "D"; _] -> (coq_string (string_of_hex p), Cli.Directory)
+        | _ -> failwith "bad P line") in
+    let inputs = SL.init (int_of_string ninputs) (fun _ -> coq_string (read_tagged "F")) in
+    let ((fs1, rep), st) = Cli.run fo lib_oracle oracles.Detect.sb_langs (fun t -> bytes_of_ocaml (utf8_of_text t)) fl inputs fs0 in
+    (* the writes: bindings stacked on top of the initial file system, oldest last *)
+    let rec writes l n = if n = 0 then [] else match l with x :: r -> x :: writes r (n - 1) | [] -> [] in
+    SL.iter (fun (p, nd) -> match nd with
+        | Cli.Regular c -> Printf.printf "W %s %s\n" (hex_of_string (ocaml_string p)) (hex_of_string (ocaml_of_bytes c))
+        | Cli.Directory -> ()) (SL.rev (writes fs1 (SL.length fs1 - SL.length fs0)));
+    Printf.printf "ST %d\n" (int_of_n st);
+    (match rep with
+     | Cli.NoReport -> print_string "REP NONE\n"
+     | Cli.Minimal lines ->
+       print_string "REP MIN\n";
+       SL.iter (fun l -> Printf.printf "L %s\n" (if l = [] then "-" else SS.concat "," (SL.map (fun e -> opt_hex (fun x -> hex_of_string (ocaml_string x)) e) l))) lines
+     | Cli.JsonObject r -> print_string "REP OBJ\n"; print_record r
+     | Cli.JsonArray rs -> Printf.printf "REP ARR %d\n" (SL.length rs); SL.iter print_record rs);
+    print_string "END\n"; flush stdout
+  | _ -> failwith "bad CLI"
+
 let () =
   try
     while true do
@@ -297,6 +359,7 @@ let () =
       | "CMP" :: rest -> cmd_cmp rest
       | "NAME" :: rest -> cmd_name rest
       | "CONT" :: rest -> cmd_cont rest
+      | "CLI" :: rest -> cmd_cli rest
       | ["DECL"; h] ->
         (match Declared.any_specified_encoding (bytes_of_ocaml (string_of_hex h)) with
          | None -> print_string "R NONE\n"
